@@ -20,6 +20,8 @@ def run(rep):
     rep.guard(h7, rep, w)
     import c02
     rep.guard(c02.p8, rep, w)     # the tuple lock shared by Display and has_hash: left set, an unhashable tuple is accepted as a key (and panics in Hash)
+    import c04
+    rep.guard(c04.b2w, rep, w, 'H8')     # the entry count of a map literal is widened before it is doubled (128..255 entries)
 
 
 def discr_switches(f, adt_path):
@@ -252,3 +254,7 @@ def h7(rep, w):
     n = c01.edges_traced(r, w, VAL, lambda lab: lab[0] in keyable and lab[0] != 'ObjString', 'a key held only by the map is reclaimed; later lookups read freed memory')
     if n < 2:
         raise Broken('C12', 'floor', 'hashable heap kinds audited: %d' % n)
+    m = c01.edges_traced(r, w, 'yarel::object::ObjHashMap', lambda lab: any('<K>' in str(x) or '<V>' in str(x) for x in lab),
+                         'an entry whose key / value is held only by the map dangles after the next collection')
+    if m < 2:
+        raise Broken('C12', 'floor', 'ObjHashMap key/value edges audited: %d' % m)
